@@ -552,7 +552,7 @@ func sameEngine(a, b string) bool {
 	return ok1 && ok2 && pa.Engine == pb.Engine
 }
 
-var reRaceFrame = regexp.MustCompile(`^\s+(github\.com/Shopify/sarama(?:/mocks)?\.[^\s(]+)\(`)
+var reRaceFrame = regexp.MustCompile(`^\s+(github\.com/Shopify/sarama(?:/mocks)?\.\S+?)\(\)\s*$`)
 var reRaceFile = regexp.MustCompile(`^\s+(/[^\s:]+\.go):(\d+)`)
 
 // parseRace keeps a block only when both access stacks contain a frame from a
